@@ -269,3 +269,24 @@ def coordinate_predicate(facts, clo_name, snaps):
 
 
 AND_TABLE = {(False, False): False, (False, True): False, (True, False): False, (True, True): True}
+
+
+def is_iteration_element(t):
+    """t (references stripped) is the element an iteration is currently at: `next()`'s payload in a loop, the element of an adapter"""
+    t = strip_refs_t(t)
+    if t[0] == 'elem':
+        return True
+    return t[0] == 'fld' and t[2] == 'Some.0' and t[1][0] == 'call' and t[1][1].endswith('::next')
+
+
+def iteration_sources(o):
+    """terms the iterations on this path run over: adapter sources and the iterators live at loop heads"""
+    src = []
+    for e in o.events:
+        if e[0] == 'adapter':
+            src.append((e[2], e[3], e[4]))
+        elif e[0] == 'loop_head' and not (isinstance(e[2], tuple)):
+            for v in e[3].values():
+                if isinstance(v, tuple) and v and v[0] == 'call' and (v[1].endswith('into_iter') or v[1].endswith('::iter')):
+                    src.append((e[2], v, ()))
+    return src
